@@ -131,7 +131,7 @@ inline void eval(char const* sub, std::uint64_t n = 1)
 inline void nontrivial(std::uint64_t digest)
 {
     auto& s = stats();
-    if (s.digests.size() < (1U << 22)) {
+    if (s.digests.size() < (1U << 20)) { // cap: keeps a shard well under 100 MB; beyond it the count is a lower bound
         s.digests.insert(digest);
     } else {
         s.digest_cap_hit = true;
